@@ -38,6 +38,7 @@ int main(int argc, char **argv) {
             !h_tls_op(toks[0], n - 1, toks + 1, stdout) &&
             !h_hostport_op(toks[0], n - 1, toks + 1, stdout) &&
             !h_dns_op(toks[0], n - 1, toks + 1, stdout) &&
+            !h_tcp_op(toks[0], n - 1, toks + 1, stdout) &&
             !h_misc_op(toks[0], n - 1, toks + 1, stdout))
             fputs("bad-op", stdout);
         fputc('\n', stdout);
